@@ -71,8 +71,10 @@ def split_programs(batch_lines):
     return progs
 
 
-def run_batch(batch_lines, tag, jobs=8):
-    """returns (impl_sections, model_sections, order, stats). Splits the batch over `jobs` processes."""
+def run_batch(batch_lines, tag, jobs=8, model_mode="trace", model_arg=None, run_impl=True):
+    """returns (impl_sections, model_sections, order, stats). Splits the batch over `jobs` processes.
+    model_mode: trace (model follows the implementation's choices) | predict (model's own scheduler)
+    | enumerate (independent enumeration of the choice tree, model_arg = leaf limit) | none"""
     import concurrent.futures
     progs = split_programs(batch_lines)
     names = list(progs)
@@ -86,10 +88,20 @@ def run_batch(batch_lines, tag, jobs=8):
             lines += progs[n]
         pfile = os.path.join(WORK, f"{tag}_{idx}.vp")
         open(pfile, "w").write("\n".join(lines) + "\n")
-        rc, out, err, dt = sh([VH, "run", pfile], timeout=1800)
+        if run_impl:
+            rc, out, err, dt = sh([VH, "run", pfile], timeout=1800)
+        else:
+            rc, out, err, dt = 0, "", "", 0.0
         ifile = os.path.join(WORK, f"{tag}_{idx}.impl")
         open(ifile, "w").write(out)
-        rc2, out2, err2, dt2 = sh([MODEL, "trace", pfile, ifile], timeout=1800)
+        if model_mode == "trace":
+            rc2, out2, err2, dt2 = sh([MODEL, "trace", pfile, ifile], timeout=1800)
+        elif model_mode == "predict":
+            rc2, out2, err2, dt2 = sh([MODEL, "predict", pfile], timeout=1800)
+        elif model_mode == "enumerate":
+            rc2, out2, err2, dt2 = sh([MODEL, "enumerate", pfile, str(model_arg or 1000)], timeout=1800)
+        else:
+            rc2, out2, err2, dt2 = 0, "", "", 0.0
         open(os.path.join(WORK, f"{tag}_{idx}.model"), "w").write(out2)
         return rc, out, err, rc2, out2, err2, dt, dt2
 
